@@ -55,17 +55,24 @@ CHECKS["C15"] = dict(
     text="Controller.tla mirrors the qbft controller (StartNewInstance guards, UponDecided incl. the all-rounds signer "
          "comparison, SaveInstance's highest/historical rule, the capacity-2 instance container, LoadHighestInstance), "
          "the duty runner's gate and save of local decisions, in-place/on-save compaction of the commit container, "
-         "ibft/storage's highest and historical records for light and full nodes, OnTimeout, and crash + Validator.Start. "
+         "ibft/storage's highest and historical records for light and full nodes, OnTimeout, crash + Validator.Start, and failing "
+         "storage writes: any db Set of a save may return an error and write nothing (<= MaxWriteFaults), with the code's reaction "
+         "transcribed - saveInstance stops at the first failing write, UponDecided and the runner log and swallow the error, nothing in "
+         "memory depends on it. NoRerun counts what was learned in memory until the next restart and only what is stored after it. "
          "TLC exhausts all sequences of duty starts, direct instance starts, local decisions, late commits, decided "
          "certificates (3/4 signers, rounds 1/2, past/current/future heights), timeouts and restarts for heights 0..3 / "
          "<= 2 restarts, checking NoRerun (height-0 special case explicit), NoRerunCtl, HeightMonotone, RestartResumes, "
-         "HighestMonotone and HistMonotoneExceptRerun. Seeded TLC simulations, seven attack traces (named deviations incl. "
-         "the pre-3b0a60d89 comparison), finding and observation traces are replayed on a real Validator + attester runner "
+         "HighestMonotone and HistMonotoneExceptRerun. Seeded TLC simulations, thirteen attack traces (named deviations incl. "
+         "the pre-3b0a60d89 comparison, a save error returned or acted on before the height bump, the instance un-decided after a "
+         "failed save, the historical write attempted after a failed highest write, compaction trimmed to the message's round), finding and observation traces are replayed on a real Validator + attester runner "
          "+ controller + ibft storage with full-state conformance after every step and monitors on real outputs; seeded "
-         "executions generated on the real code are validated against ControllerTrace.tla.",
+         "executions generated on the real code are validated against ControllerTrace.tla (incl. injected write failures keyed by "
+         "write-attempt number in a fault-injecting basedb.Database wrapper).",
     design_ref="DESIGN.md section 5 C15",
     note="One committee of 4, certificates {1,2,3}/{1,2,3,4}, one value per height; a crash may fall between calls and between the two writes of "
-         "SaveInstance (each single db Set atomic); in-memory badger stands in for disk; the height-0 special case of ShouldProcessDuty is excluded explicitly; "
+         "SaveInstance (each single db Set atomic); a db Set may also fail (error, nothing written; at most 2 per behaviour "
+         "exhaustively, 3 in recorded runs; not combined with a crash inside the same call; reads never fail); a decision whose write "
+         "failed may legitimately be forgotten by a restart (RestartCoversLearned and restart-lost-highest exempt such calls); in-memory badger stands in for disk; the height-0 special case of ShouldProcessDuty is excluded explicitly; "
          "known finding history-overwritten-by-rerun-after-restart (late decided below c.Height is not stored as highest); "
          "quick-tier exhaustive runs are time-boxed (stopAfter) and report exhaustive=false when the box is hit.",
     technique="TLA+ spec + TLC exhaustive check; simulations, attack and finding traces replayed on the real code with "
